@@ -17,7 +17,8 @@ META = {
         'separators: NameValuePairList._parse passes the optional-whitespace set " \\t" and skip_empty=True; header field '
         'names are lower-cased before comparison; the detailed and the generic header field parser use the same value '
         'terminator set (sibling agreement). R3 order-freedom: _parse_basic_params matches components to attributes by name, '
-        'never by position, and ignores unmatched components unless an extension attribute exists.'),
+        'never by position, and ignores unmatched components unless an extension attribute exists.'
+        ' R1-R4 are decided by tabulation: _check_name over case patterns of every canonical name, the separator scanner over whitespace runs, the list scanner (_parse_string_array and helpers) over list spellings, the component matcher over absent / empty / present values and an upper-case name, the name[=value] composers. R5: list separators are parsed as runs.'),
     'assumptions': ['invariance over the full RFC grammar of spellings (quoting, permutations, redundant separators) is not decided'],
     'trusted_base': ['python ast', 'sa.model method resolution', 'sa/specs/text.json'],
     'exhaustive': True,
